@@ -4,8 +4,15 @@ from . import handlers, sqlunits
 LEVEL = "proof"
 EXPLANATION = "contracts of the real SQLite store/queue functions (SQL text interpreted by pyvc.sql) and handler trace obligations, selected by the prefix C19/"
 ASSUMPTIONS = ["SQLite contract of DESIGN 1.4 (statement atomicity, commit atomicity, INSERT OR IGNORE, RETURNING, rowcount)"]
-TRUSTED = ["pyvc.sql statement semantics"]
+TRUSTED = ["pyvc.sql statement semantics", "native comparison harness replay/bounded/c19_store_retrieve.py (bounded stand-in for the retrieve loops)"]
 
 
 def units(tier):
     return sqlunits.units_for("C19") + handlers.units_for("C19")
+
+
+def extras(tier, seed):
+    from pyvc.bounded import run_bounded
+
+    # the assembly loops of retrieve() / retrieve_stage() (result sets with ORDER BY) are outside the contracts: bounded stand-in
+    return [run_bounded("C19", "c19_store_retrieve.py", "C19/bounded/store-then-retrieve", tier, seed)]
